@@ -30,6 +30,9 @@ cm = sum(1 for r in rows if r[1] == "mutant" and r[3].startswith("caught")); cs 
 body = f"{cm} of {nm} mutants and {cs} of {ns} seeded changes are caught by the quick tier of the current checks:\n\n" + body
 s = between(s, "SENSITIVITY", body)
 if os.path.exists(f"{V}/soak_results.txt"):
-    s = between(s, "SOAK", "### 9.1 Soak runs\n\n```\n" + open(f"{V}/soak_results.txt").read().rstrip() + "\n```")
+    body = "### 9.1 Quick tier at several seeds (unchanged tree)\n\n```\n" + open(f"{V}/soak_results.txt").read().rstrip() + "\n```"
+    if os.path.exists(f"{V}/thorough_results.txt"):
+        body += "\n\n### 9.2 Thorough tier (unchanged tree)\n\nThe first thorough runs of C09 and C11 reported violations that were false alarms of the harness at the larger sizes (section 6); the lines below are the runs after the corrections.\n\n```\n" + open(f"{V}/thorough_results.txt").read().rstrip() + "\n```"
+    s = between(s, "SOAK", body)
 open(f"{V}/DESIGN.md", "w").write(s)
 print(f"mutants {cm}/{nm} seeded {cs}/{ns}")
